@@ -1034,7 +1034,7 @@ def c05(ctx):
 CLOSE = 20800
 
 
-@check('C03', ['C03.v'])
+@check('C03', ['C03.v', 'C03chess.v'])
 def c03(ctx):
     n = 160 if ctx.quick else 3000
     allp = [p for p in S.positions(ctx, n, extra_seed=3) if p['nlegal'] > 0]
@@ -1102,7 +1102,7 @@ def c03(ctx):
             'samples': [{'fen': j.fen, 'go': j.go, 'stop_after_s': j.stop_after, 'bestmove': j.parsed['bestmove']} for j in jobs[:3]]}
 
 
-@check('C10', ['C10.v'])
+@check('C10', ['C10.v', 'C03chess.v'])
 def c10(ctx):
     n = 70 if ctx.quick else 2000
     pos = [p for p in S.positions(ctx, n, extra_seed=10) if p['nlegal'] > 0]
@@ -1265,7 +1265,7 @@ def sched_desc(r):
             'output': r['lines'][-8:], 'replay': 'verifh sched (the schedule is enumerated deterministically; this row is identified by the fields above)'}
 
 
-@check('C11', ['C11.v'])
+@check('C11', ['C11.v', 'C03chess.v'])
 def c11(ctx):
     npos, maxd, maxk = (3, 3, 3) if ctx.quick else (12, 4, 8)
     rows, err, rc = run_sched(ctx, npos, maxd, maxk, mode='c11')
